@@ -12,7 +12,10 @@ RULE = ("first tree: random shape (1-14 nodes; all shapes <=4 nodes in the enume
         "character of the separator left out); attributes age (int) / tag (str) on ~60% of the nodes; second tree = "
         "the first after a random edit script of 0-4 steps (delete a subtree, add a node, change/remove/add an "
         "attribute); attr_list in {[], [age], [tag], [age, tag]}; only_diff on/off; separators / . \\ | ::. "
-        "A case is non-trivial when at least one node is marked; distinct = distinct lines")
+        "About a quarter of the random pairs are history-built: the same two tree objects are first diffed in an earlier "
+        "state (other attribute values), then edited in place to the final state and diffed again (the model sees the "
+        "final state only). The edit script also re-orders siblings; 'positional twins' are pairs that read the same "
+        "position by position in pre-order but differ path by path. A case is non-trivial when at least one node is marked; distinct = distinct lines")
 EXHAUSTIVE = {"quick": "every ordered shape with <=4 nodes (names b, bc, b.c, b( ... in rotation) x every single-subtree deletion and every single-node addition, only_diff on/off",
               "thorough": "every ordered shape with <=5 nodes x every single-subtree deletion and every single-node addition, only_diff on/off"}
 MODELLED = ["a DataFrame is a list of rows; the outer merge on [PATH, name] returns every key once (keys are unique per tree); its row order is not modelled (results are compared as sets of component tuples)",
@@ -73,7 +76,17 @@ def edit(rng, spec, alphabet, steps):
     for _ in range(steps):
         ns = all_nodes(m)
         r = rng.random()
-        if r < 0.35 and len(ns) > 1:
+        if r < 0.12:
+            cands = [x for x, _ in ns if len(x[2]) >= 2]
+            if not cands:
+                continue
+            node = rng.choice(cands)
+            if rng.random() < 0.5:
+                node[2].reverse()
+            else:
+                rng.shuffle(node[2])
+            ops.append("perm")
+        elif r < 0.4 and len(ns) > 1:
             node, parent = rng.choice(ns[1:])
             parent[2].remove(node)
             ops.append("del")
@@ -111,9 +124,47 @@ def _line(d):
             + " U " + core.enc_tree(d["t2"]))
 
 
-def mk(t1, t2, sep, only_diff, attr_list, tags=()):
+def mk(t1, t2, sep, only_diff, attr_list, tags=(), prev=None):
     d = {"t1": norm(t1), "t2": norm(t2), "sep": sep, "only_diff": only_diff, "attr_list": list(attr_list)}
+    if prev:
+        d["prev"] = prev
+        tags = tuple(tags) + ("history",)
     return Case(_line(d), d, tags)
+
+
+def positional_twin(rng, t1):
+    """a second tree with the same names in which some sibling lists are re-ordered and the attribute dictionaries are
+    re-dealt so that the k-th node in pre-order carries what the k-th node of `t1` carries: the two trees read the
+    same position by position and differ path by path"""
+    m = to_mut(t1)
+    for node, _ in all_nodes(m):
+        if len(node[2]) >= 2 and rng.random() < 0.7:
+            node[2].reverse() if rng.random() < 0.5 else rng.shuffle(node[2])
+    seq = [dict(x[1]) for x, _ in all_nodes(to_mut(t1))]
+    for (node, _), a in zip(all_nodes(m), seq):
+        node[1].clear()
+        node[1].update(a)
+    return from_mut(m)
+
+
+def make_prev(rng, d):
+    """an earlier state of the same two objects: same shape plus possibly an extra leaf (detached afterwards), other
+    attribute values (edited in place afterwards); returns {"t1": spec, "t2": spec, "extra1": [...], ...}"""
+    out = {}
+    for which in ("t1", "t2"):
+        m = to_mut(d[which])
+        for node, _ in all_nodes(m):
+            if rng.random() < 0.5:
+                for k in ("age", "tag"):
+                    r = rng.random()
+                    if r < 0.3:
+                        node[1].pop(k, None)
+                    elif r < 0.6:
+                        node[1][k] = rng.choice([1, 2, 3]) if k == "age" else rng.choice(["u", "v", "w"])
+        out[which] = from_mut(m)
+    out["same_attr_list"] = rng.random() < 0.8
+    out["detach_reattach"] = rng.random() < 0.3
+    return out
 
 
 def rehydrate(case):
@@ -188,7 +239,24 @@ def gen(rng: random.Random, tier: str):
         only = rng.random() < 0.5
         al = rng.choice(ATTRSETS)
         tags = ["random", "sep=" + sep, "only" if only else "all", "attrs=%d" % len(al)] + sorted(set(ops)) + (["noedit"] if not ops else [])
-        cases.append(mk(t1, t2, sep, only, al, tags))
+        c = mk(t1, t2, sep, only, al, tags)
+        if rng.random() < 0.25:
+            c = mk(t1, t2, sep, only, al, tags, prev=make_prev(rng, c.data))
+        cases.append(c)
+    # ---- positional twins: same names, re-ordered siblings, attributes re-dealt by pre-order position
+    for _ in range(150 if tier == "quick" else 1500):
+        sep = rng.choice(SEPS)
+        alphabet = [a for a in HOSTILE if not (set(a) & set(sep))]
+        shape = core.random_shape(rng, rng.randint(3, 9))
+        t1 = label(shape, rng, alphabet)
+        t2 = positional_twin(rng, t1)
+        if rng.random() < 0.3:
+            t2, _ops = edit(rng, t2, alphabet, 1)
+        only = rng.random() < 0.5
+        al = rng.choice([["age"], ["age", "tag"], ["tag"]])
+        cases.append(mk(t1, t2, sep, only, al, ("twin", "only" if only else "all")))
+    for only in (True, False):
+        cases.append(mk(L("r", L("x", age=1), L("y", age=2)), L("r", L("y", age=1), L("x", age=2)), "/", only, ["age"], ("corpus", "twin")))
     return cases
 
 
@@ -254,6 +322,13 @@ def comps(n):
 _CACHE = {}
 
 
+def _pre_specs(spec):
+    out = [spec]
+    for k in spec[2]:
+        out += _pre_specs(k)
+    return out
+
+
 def run(d):
     """one real call per case (impl and oracle look at the same objects; neither mutates them)"""
     from bigtree import get_tree_diff
@@ -263,8 +338,30 @@ def run(d):
         if isinstance(hit[1], Exception):
             raise hit[1]
         return hit[1]
-    a = build(d["t1"], d["sep"])
-    b = build(d["t2"], d["sep"])
+    prev = d.get("prev")
+    if prev:
+        # HISTORY: the same two objects were diffed before, in an earlier state; then edited in place
+        a = build(prev["t1"], d["sep"])
+        b = build(prev["t2"], d["sep"])
+        try:
+            get_tree_diff(a, b, only_diff=d["only_diff"],
+                          attr_list=list(d["attr_list"]) if prev.get("same_attr_list", True) else ["age"])
+        except Exception:
+            pass
+        for tree, spec in ((a, d["t1"]), (b, d["t2"])):
+            for n, want in zip(preorder(tree), [x[1] for x in _pre_specs(spec)]):
+                for k, _v in list(n.describe(exclude_attributes=["name"], exclude_prefix="_")):
+                    if k not in want:
+                        delattr(n, k)
+                for k, v in want.items():
+                    setattr(n, k, v)
+            if prev.get("detach_reattach") and tree.children:
+                kids = list(tree.children)
+                tree.children = []
+                tree.children = kids
+    else:
+        a = build(d["t1"], d["sep"])
+        b = build(d["t2"], d["sep"])
     if len(_CACHE) > 50000:
         _CACHE.clear()
     try:
@@ -388,6 +485,9 @@ def _size(spec):
 
 def shrink(case):
     d = case.data
+    if d.get("prev"):
+        yield mk(d["t1"], d["t2"], d["sep"], d["only_diff"], d["attr_list"], case.tags)
+        return   # (the earlier state is only meaningful for the shape it was generated for)
     if d["attr_list"]:
         yield mk(d["t1"], d["t2"], d["sep"], d["only_diff"], d["attr_list"][:-1], case.tags)
     if d["sep"] != "/" and all("/" not in p[-1] for p in list(spec_paths(d["t1"])) + list(spec_paths(d["t2"]))):
